@@ -563,6 +563,7 @@ pub struct Worker {
     crash_only: bool,
     /// CPU time (ms) the worker reported for the last input
     last_cpu: i64,
+    confirming: bool,
     child: Child,
     stdin: ChildStdin,
     stdout: BufReader<ChildStdout>,
@@ -601,7 +602,7 @@ impl Worker {
         let stdin = child.stdin.take().unwrap();
         let stdout = BufReader::new(child.stdout.take().unwrap());
         let crash_only = path.components().any(|c| c.as_os_str() == "debug");
-        Ok(Worker { path: path.to_path_buf(), asan, crash_only, last_cpu: 0, child, stdin, stdout, stderr_path })
+        Ok(Worker { path: path.to_path_buf(), asan, crash_only, last_cpu: 0, confirming: false, child, stdin, stdout, stderr_path })
     }
 
     fn respawn(&mut self) {
@@ -651,9 +652,21 @@ impl Worker {
                 }
                 // time proportional to the input size: the shipping build needs at most 0.13 ms
                 // of CPU per KiB on everything generated from the unchanged tree (calibration
-                // run, DESIGN section 7); 2 ms per KiB plus half a second is far outside of that
-                if !self.asan && cpu > 500 + 2 * (data.len() as i64) / 1024 {
-                    return Outcome::Cpu(cpu);
+                // run, DESIGN section 7); 4 ms per KiB plus a second is far outside of that
+                if !self.asan && cpu > 1000 + 4 * (data.len() as i64) / 1024 && !self.confirming {
+                    // confirm: the smallest of three measurements decides (a loaded machine)
+                    self.confirming = true;
+                    let mut least = cpu;
+                    for _ in 0..2 {
+                        match self.exec(entry, data, slot) {
+                            Outcome::Ok | Outcome::Err => least = least.min(self.last_cpu),
+                            _ => {}
+                        }
+                    }
+                    self.confirming = false;
+                    if least > 1000 + 4 * (data.len() as i64) / 1024 {
+                        return Outcome::Cpu(least);
+                    }
                 }
                 if outcome == "ok" {
                     Outcome::Ok
@@ -1020,7 +1033,7 @@ pub fn property() -> Property {
     Property {
         id: "C10",
         level: "exploration",
-        rule: "inputs = valid payloads of every decoding entry point (21 entries: update v1/v2, state vector, snapshot, delete set, sticky index binary/JSON, Any binary/JSON, MessageReader, awareness update, merge_updates, diff_updates, encode_state_vector_from_update; updates come from the independent payload builder of C09) with 0..2 generated mutations (truncation at any prefix, bit flip, byte set, substitution/insertion of extreme var-ints {0,1,127,128,2^14,2^28,2^31-1,2^32-1,2^53,2^63,10-byte max,overlong}, splice, duplication, random bytes) plus deep-nesting builders (Any arrays/maps, JSON, nested Any inside an update) up to 60 000 levels; wide updates (up to 300 000 Skip/GC blocks, clients or delete ranges in ascending, descending, interleaved and repeated order); 47 families of valid inputs (wide updates through decode / merge / diff / state-vector extraction, delete sets, snapshots, Any arrays, JSON arrays, state vectors, message streams, awareness updates) executed at 40 000 and 160 000 elements on the shipping worker: four times the input must not cost more than ten times the CPU time (and more than 250 ms); every input is executed in an isolated process with shipping build settings, again under AddressSanitizer, and in an unoptimised build (where only a stack overflow counts), each on a 2 MiB stack; outcomes other than value/error (panic, crash/sanitizer report, >64 MiB committed memory beyond 1 KiB per input byte, >20 s CPU, CPU time above 0.5 s + 2 ms per KiB of input in the shipping build — 15x the worst rate measured on the unchanged tree —, hang) are violations.  Non-trivial = the decoder returned a value, or the input is a valid payload with at most one local mutation (so it passes the outer framing); distinct = distinct (entry, bytes)".into(),
+        rule: "inputs = valid payloads of every decoding entry point (21 entries: update v1/v2, state vector, snapshot, delete set, sticky index binary/JSON, Any binary/JSON, MessageReader, awareness update, merge_updates, diff_updates, encode_state_vector_from_update; updates come from the independent payload builder of C09) with 0..2 generated mutations (truncation at any prefix, bit flip, byte set, substitution/insertion of extreme var-ints {0,1,127,128,2^14,2^28,2^31-1,2^32-1,2^53,2^63,10-byte max,overlong}, splice, duplication, random bytes) plus deep-nesting builders (Any arrays/maps, JSON, nested Any inside an update) up to 60 000 levels; wide updates (up to 300 000 Skip/GC blocks, clients or delete ranges in ascending, descending, interleaved and repeated order); 47 families of valid inputs (wide updates through decode / merge / diff / state-vector extraction, delete sets, snapshots, Any arrays, JSON arrays, state vectors, message streams, awareness updates) executed at 40 000 and 160 000 elements on the shipping worker: four times the input must not cost more than ten times the CPU time (and more than 250 ms); every input is executed in an isolated process with shipping build settings, again under AddressSanitizer, and in an unoptimised build (where only a stack overflow counts), each on a 2 MiB stack; outcomes other than value/error (panic, crash/sanitizer report, >64 MiB committed memory beyond 1 KiB per input byte, >20 s CPU, user CPU time above 1 s + 4 ms per KiB of input in the shipping build (smallest of three measurements; 30x the worst rate measured on the unchanged tree), hang) are violations.  Non-trivial = the decoder returned a value, or the input is a valid payload with at most one local mutation (so it passes the outer framing); distinct = distinct (entry, bytes)".into(),
         assumptions: vec![
             "shipping configuration decides (debug-only overflow assertions are not violations)".into(),
             "memory is what the process commits (RSS high-water growth) or fails to obtain (abort), not the size passed to a fallible try_reserve".into(),
